@@ -36,6 +36,7 @@ def run(tier, seed):
     from checks import c14
     chk.assume("callee contracts of src.norms:Slobodeckij (C14's proved clauses) are re-discharged in this check")
     guarded(chk, 'proved part seminorm routines (contracts of C14)', c14.add_obligations, chk, tier, seed)
+    guarded(chk, 'bounded part seminorm call histories (C14)', c14.history_clauses, chk)
     try:
         from bounded import estimator_rel
         guarded(chk, 'bounded part estimator_rel.run_c09', estimator_rel.run_c09, chk, tier, seed)
